@@ -658,3 +658,660 @@ Section MatchSound.
         * simpl. rewrite (subst_lift a b m1 m'), T2; auto.
   Qed.
 End MatchSound.
+
+(* ------------------------------------------------------------------------------------------------ *)
+(* Stage 2d: a strict instance is found by the matcher; the matcher never panics                    *)
+(* ------------------------------------------------------------------------------------------------ *)
+
+Section MatchComplete.
+  Variable s : subst.
+  Hypothesis Hgs : ground_subst s = true.
+  Hypothesis Hws : subst_wf s = true.
+
+  (* where both bind a variable, they agree *)
+  Definition cmp (m : subst) : Prop :=
+    forall n u u', assoc n m = Some u -> assoc n s = Some u' -> ty_eqb u u' = true.
+
+  Definition complete_stmt' (x : ty) : Prop :=
+    forall y m, simple x = true -> wf_ty x = true -> ty_ok y = true -> cmp m ->
+      ty_eqb (subst_ty s x) y = true ->
+      exists r m', mtch x y m = Ok (r, m') /\ cmp m' /\ ty_eqb r y = true /\
+                   (keyable x = true -> keyable y = true -> keyable r = true).
+
+  Lemma mtch_fields_complete f2 :
+    (forall n b, In (n, b) f2 -> ty_ok b = true) ->
+    forall f1, Forall (fun nf => complete_stmt' (snd nf)) f1 ->
+    (forall n a, In (n, a) f1 -> simple a = true /\ wf_ty a = true) ->
+    forall m, cmp m -> eqb_fields f2 (map (fun f => (fst f, subst_ty s (snd f))) f1) = true ->
+    exists us m', mtch_fields f2 f1 m = Ok (us, m') /\ cmp m' /\ eqb_fields f2 us = true /\
+                  List.length us = List.length f1.
+  Proof.
+    intros Hf2. induction 1 as [|[n a] r1 Ha Hr IH]; intros Hf1 m Hc HE; simpl in HE |- *.
+    - exists [], m. auto.
+    - apply andb_true_iff in HE. destruct HE as [HE1 HE2].
+      destruct (assoc n f2) as [b|] eqn:Eb; [|discriminate HE1].
+      destruct (Hf1 n a (or_introl Logic.eq_refl)) as [Hsa Hwa].
+      destruct (Ha b m Hsa Hwa (Hf2 n b (assoc_In _ _ _ Eb)) Hc HE1) as [u [m1 [E1 [C1 [T1 _]]]]].
+      simpl in E1. rewrite E1. simpl.
+      destruct (IH (fun n' a' Hin => Hf1 n' a' (or_intror Hin)) m1 C1 HE2) as [us [m2 [E2 [C2 [T2 L2]]]]].
+      fold (mtch_fields f2). rewrite E2. simpl. exists ((n, u) :: us), m2.
+      repeat split; try assumption.
+      + simpl. rewrite Eb, T1, T2. reflexivity.
+      + simpl. f_equal. exact L2.
+  Qed.
+
+  Lemma mtch_complete : forall x, complete_stmt' x.
+  Proof.
+    induction x using ty_ind'; intros y m Hsx Hwx Hy Hc HE; try discriminate Hsx;
+      destruct (ty_ok_parts _ Hy) as [Hy1 [Hy2 Hy3]].
+    - (* top *) exists TTop, m. simpl in *. repeat split; auto.
+    - (* bot *) destruct y; simpl in HE; try discriminate HE. exists TBot, m. repeat split; auto.
+    - (* var *)
+      simpl in HE. destruct (assoc n s) as [t|] eqn:Ea.
+      2:{ destruct y; simpl in HE; try discriminate HE. simpl in Hy1. discriminate Hy1. }
+      assert (wf_ty t = true) as Hwt by (eapply wf_assoc; eauto).
+      assert (mtch (TVar n) y m = Ok (y, update n y m)) as EM.
+      { simpl. destruct (assoc n m) as [k|] eqn:Ek; [|reflexivity].
+        rewrite (eqb_trans k t y); [reflexivity|eapply Hc; eauto|exact HE]. }
+      exists y, (update n y m). repeat split; auto.
+      + intros v u u' Hu Hu'. destruct (String.eqb_spec v n) as [E|E].
+        * subst v. rewrite assoc_update_same in Hu. inversion Hu; subst u.
+          rewrite Ea in Hu'. inversion Hu'; subst u'. apply eqb_sym_imp; assumption.
+        * rewrite assoc_update_other in Hu by assumption. eapply Hc; eauto.
+      + apply eq_refl. exact Hy2.
+    - destruct y; simpl in HE; try discriminate HE. exists TNum, m. repeat split; auto.
+    - destruct y; simpl in HE; try discriminate HE. exists TStr, m. repeat split; auto.
+    - destruct y; simpl in HE; try discriminate HE. exists TBool, m. repeat split; auto.
+    - destruct y; simpl in HE; try discriminate HE. exists TTime, m. repeat split; auto.
+    - (* list *)
+      destruct y; simpl in HE; try discriminate HE. simpl in *.
+      destruct (IHx y m Hsx Hwx (ty_ok_intro _ Hy1 Hy2 Hy3) Hc HE) as [e [m1 [E1 [C1 [T1 _]]]]].
+      rewrite E1. simpl. exists (TList e), m1. repeat split; auto; try (intros K; discriminate K).
+    - (* map *)
+      destruct y; simpl in HE; try discriminate HE.
+      apply andb_true_iff in HE. destruct HE as [HE1 HE2].
+      simpl in Hy1, Hy3, Hsx. apply andb_true_iff in Hy1. apply andb_true_iff in Hy3. apply andb_true_iff in Hsx.
+      apply wf_map in Hy2. apply wf_map in Hwx.
+      destruct Hy1 as [A1 A2]. destruct Hy3 as [C1 C2]. destruct Hsx as [S1 S2].
+      destruct Hy2 as [Ky [B1 B2]]. destruct Hwx as [Kx [W1 W2]].
+      destruct (IHx1 y1 m S1 W1 (ty_ok_intro _ A1 B1 C1) Hc HE1) as [k [m1 [E1 [Cm1 [T1 K1]]]]].
+      destruct (IHx2 y2 m1 S2 W2 (ty_ok_intro _ A2 B2 C2) Cm1 HE2) as [v [m2 [E2 [Cm2 [T2 _]]]]].
+      simpl. rewrite E1. simpl. rewrite E2. simpl. unfold mk_map. rewrite (K1 Kx Ky). simpl.
+      exists (TMap k v), m2. repeat split; auto; try (intros K; discriminate K).
+      simpl. rewrite T1, T2. reflexivity.
+    - (* obj *)
+      destruct y; try (simpl in HE; discriminate HE).
+      simpl subst_ty in HE. rewrite ty_eqb_obj, map_length in HE. apply andb_true_iff in HE. destruct HE as [El HE].
+      simpl in Hy1, Hy3. apply wf_obj in Hy2. destruct Hy2 as [_ Hy2]. rewrite forallb_forall in Hy1, Hy3.
+      pose proof Hwx as Hwx'. apply wf_obj in Hwx'. destruct Hwx' as [_ Hwf].
+      destruct (mtch_fields_complete fs0) with (f1 := fs) (m := m) as [us [m1 [E1 [C1 [T1 L1]]]]]; try assumption.
+      { intros n b Hin. apply ty_ok_intro; [apply (Hy1 _ Hin)|eauto|apply (Hy3 _ Hin)]. }
+      { intros n a Hin. split; [eapply simple_obj_in; eauto|eauto]. }
+      rewrite mtch_obj, El. simpl. rewrite E1. simpl. exists (TObj us), m1. repeat split; auto; try (intros K; discriminate K).
+      rewrite ty_eqb_obj, L1, El, T1. reflexivity.
+    - (* maybe *)
+      destruct y; simpl in HE; try discriminate HE. simpl in *.
+      destruct (IHx y m Hsx Hwx (ty_ok_intro _ Hy1 Hy2 Hy3) Hc HE) as [e [m1 [E1 [C1 [T1 _]]]]].
+      rewrite E1. simpl. exists (TMaybe e), m1. repeat split; auto; try (intros K; discriminate K).
+  Qed.
+
+  Lemma mtch_list_complete : forall l1 l2 m,
+    (forall a, In a l1 -> simple a = true /\ wf_ty a = true) ->
+    forallb ty_ok l2 = true -> cmp m ->
+    eqb_list (map (subst_ty s) l1) l2 = true ->
+    exists us m', mtch_list l1 l2 m = Ok (us, m') /\ cmp m' /\ eqb_list us l2 = true.
+  Proof.
+    induction l1 as [|a r1 IH]; intros [|b r2] m H1 H2 Hc HE; simpl in HE; try discriminate HE.
+    - exists [], m. auto.
+    - apply andb_true_iff in HE. destruct HE as [HE1 HE2].
+      simpl in H2. apply andb_true_iff in H2. destruct H2 as [Hb Hr2].
+      destruct (H1 a (or_introl Logic.eq_refl)) as [Hsa Hwa].
+      destruct (mtch_complete a b m Hsa Hwa Hb Hc HE1) as [u [m1 [E1 [C1 [T1 _]]]]].
+      destruct (IH r2 m1 (fun a' Hin => H1 a' (or_intror Hin)) Hr2 C1 HE2) as [us [m2 [E2 [C2 T2]]]].
+      simpl. rewrite E1. simpl. rewrite E2. simpl. exists (u :: us), m2. repeat split; auto.
+      simpl. rewrite T1, T2. reflexivity.
+  Qed.
+End MatchComplete.
+
+(* the matcher never panics (and is fuel-free) *)
+Definition total_stmt (x : ty) : Prop :=
+  forall y m, wf_ty x = true -> wf_ty y = true ->
+    mtch x y m = Fail \/ exists r m', mtch x y m = Ok (r, m') /\ (keyable x = true -> keyable y = true -> keyable r = true).
+
+Lemma mtch_fields_total f2 :
+  (forall n b, In (n, b) f2 -> wf_ty b = true) ->
+  forall f1, Forall (fun nf => total_stmt (snd nf)) f1 -> (forall n a, In (n, a) f1 -> wf_ty a = true) ->
+  forall m, mtch_fields f2 f1 m = Fail \/ exists us m', mtch_fields f2 f1 m = Ok (us, m').
+Proof.
+  intros Hf2. induction 1 as [|[n a] r1 Ha Hr IH]; intros Hf1 m; simpl.
+  - right. eauto.
+  - destruct (assoc n f2) as [b|] eqn:Eb; [|left; reflexivity].
+    destruct (Ha b m (Hf1 n a (or_introl Logic.eq_refl)) (Hf2 n b (assoc_In _ _ _ Eb))) as [E|[u [m1 [E _]]]];
+      simpl in E; rewrite E; simpl; [left; reflexivity|].
+    fold (mtch_fields f2).
+    destruct (IH (fun n' a' Hin => Hf1 n' a' (or_intror Hin)) m1) as [E2|[us [m2 E2]]]; rewrite E2; simpl;
+      [left; reflexivity|right; eauto].
+Qed.
+
+Lemma mtch_total : forall x, total_stmt x.
+Proof.
+  induction x using ty_ind'; intros y m Hwx Hwy.
+  - right. exists TTop, m. auto.
+  - destruct y; simpl; auto; right; exists TBot, m; auto.
+  - simpl. destruct (assoc n m) as [k|]; [destruct (ty_eqb k y); [|left; reflexivity]|];
+      right; exists y, (update n y m); auto.
+  - destruct y; simpl; auto; right; exists TNum, m; auto.
+  - destruct y; simpl; auto; right; exists TStr, m; auto.
+  - destruct y; simpl; auto; right; exists TBool, m; auto.
+  - destruct y; simpl; auto; right; exists TTime, m; auto.
+  - left. reflexivity.
+  - destruct y; simpl; auto; try (right; exists (TList x), m; split; [reflexivity|intros K; discriminate K]).
+    simpl in *. destruct (IHx y m Hwx Hwy) as [E|[e [m1 [E _]]]]; rewrite E; simpl; auto.
+    right. exists (TList e), m1. split; [reflexivity|intros K; discriminate K].
+  - destruct y; simpl; auto; try (right; exists (TMap x1 x2), m; split; [reflexivity|intros K; discriminate K]).
+    apply wf_map in Hwx. apply wf_map in Hwy. destruct Hwx as [Kx [W1 W2]]. destruct Hwy as [Ky [B1 B2]].
+    destruct (IHx1 y1 m W1 B1) as [E|[k [m1 [E K1]]]]; rewrite E; simpl; auto.
+    destruct (IHx2 y2 m1 W2 B2) as [E2|[v [m2 [E2 _]]]]; rewrite E2; simpl; auto.
+    unfold mk_map. rewrite (K1 Kx Ky). simpl. right. exists (TMap k v), m2. split; [reflexivity|intros K; discriminate K].
+  - destruct y; try (simpl; auto; fail);
+      try (right; exists (TObj fs), m; split; [reflexivity|intros K; discriminate K]).
+    rewrite mtch_obj. destruct (negb (Nat.eqb (List.length fs) (List.length fs0))); [left; reflexivity|].
+    apply wf_obj in Hwx. apply wf_obj in Hwy. destruct Hwx as [_ Hwx]. destruct Hwy as [_ Hwy].
+    destruct (mtch_fields_total fs0 Hwy fs H Hwx m) as [E|[us [m1 E]]]; rewrite E; simpl; auto.
+    right. exists (TObj us), m1. split; [reflexivity|intros K; discriminate K].
+  - left. reflexivity.
+  - destruct y; simpl; auto; try (right; exists (TMaybe x), m; split; [reflexivity|intros K; discriminate K]).
+    simpl in *. destruct (IHx y m Hwx Hwy) as [E|[e [m1 [E _]]]]; rewrite E; simpl; auto.
+    right. exists (TMaybe e), m1. split; [reflexivity|intros K; discriminate K].
+Qed.
+
+Lemma mtch_list_total : forall l1 l2 m,
+  (forall a, In a l1 -> wf_ty a = true) -> (forall b, In b l2 -> wf_ty b = true) ->
+  mtch_list l1 l2 m = Fail \/ exists us m', mtch_list l1 l2 m = Ok (us, m').
+Proof.
+  induction l1 as [|a r1 IH]; intros [|b r2] m H1 H2; simpl; try (right; eauto; fail).
+  destruct (mtch_total a b m (H1 a (or_introl Logic.eq_refl)) (H2 b (or_introl Logic.eq_refl))) as [E|[u [m1 [E _]]]];
+    rewrite E; simpl; auto.
+  destruct (IH r2 m1 (fun a' Hin => H1 a' (or_intror Hin)) (fun b' Hin => H2 b' (or_intror Hin))) as [E2|[us [m2 E2]]];
+    rewrite E2; simpl; auto.
+  right. eauto.
+Qed.
+
+(* ------------------------------------------------------------------------------------------------ *)
+(* Stage 2e: inferFun.  Names generated for the pseudo function                                      *)
+(* ------------------------------------------------------------------------------------------------ *)
+
+Lemma string_of_N_inj a b : string_of_N a = string_of_N b -> a = b.
+Proof.
+  unfold string_of_N. intros H.
+  assert (forall n, N.to_uint n <> Decimal.Nil) as Hnn.
+  { intros [|p]; simpl; [discriminate|]. apply DecimalPos.Unsigned.to_uint_nonnil. }
+  assert (Some (N.to_uint a) = Some (N.to_uint b)) as E.
+  { rewrite <- (NilZero.usu _ (Hnn a)), <- (NilZero.usu _ (Hnn b)). rewrite H. reflexivity. }
+  inversion E as [E']. rewrite <- (DecimalN.Unsigned.of_to a), <- (DecimalN.Unsigned.of_to b). rewrite E'. reflexivity.
+Qed.
+
+Definition sname (fresh i : N) : string := "s" ++ string_of_N (fresh + i).
+Definition snames (fresh : N) (n : nat) : list string := map (sname fresh) (seqN 1 n).
+Definition tname (fresh : N) (n : nat) : string := "t" ++ string_of_N (fresh + N.of_nat n + 1).
+Definition m_init (fresh : N) (params : list ty) (ret : ty) (n : nat) : subst :=
+  (combine (snames fresh n) params ++ [(tname fresh n, ret)])%list.
+
+Lemma seqN_lt a n i : In i (seqN a n) -> (a <= i)%N.
+Proof.
+  revert a. induction n as [|n IH]; intros a H; simpl in H; [contradiction|].
+  destruct H as [E|H]; [subst; apply N.le_refl|]. apply IH in H. lia.
+Qed.
+
+Lemma seqN_NoDup a n : NoDup (seqN a n).
+Proof.
+  revert a. induction n as [|n IH]; intros a; simpl; constructor; [|apply IH].
+  intros H. apply seqN_lt in H. lia.
+Qed.
+
+Lemma seqN_length a n : List.length (seqN a n) = n.
+Proof. revert a. induction n as [|n IH]; intros a; simpl; [reflexivity|]. rewrite IH. reflexivity. Qed.
+
+Lemma sname_inj fresh i j : sname fresh i = sname fresh j -> i = j.
+Proof.
+  unfold sname. simpl. intros H. inversion H as [H']. apply string_of_N_inj in H'. lia.
+Qed.
+
+Lemma snames_NoDup fresh n : NoDup (snames fresh n).
+Proof.
+  unfold snames. generalize (seqN_NoDup 1 n). generalize (seqN 1 n). intros l Hnd.
+  induction Hnd as [|a r Hnotin Hnd IH]; simpl; constructor; [|exact IH].
+  intros Hin. apply in_map_iff in Hin. destruct Hin as [j [E Hj]]. apply sname_inj in E. subst j. contradiction.
+Qed.
+
+Lemma snames_length fresh n : List.length (snames fresh n) = n.
+Proof. unfold snames. rewrite map_length. apply seqN_length. Qed.
+
+Lemma snames_In fresh n nm : In nm (snames fresh n) -> exists i, nm = sname fresh i.
+Proof. unfold snames. intros H. apply in_map_iff in H. destruct H as [i [E _]]. eauto. Qed.
+
+Lemma tname_not_sname fresh n i : tname fresh n <> sname fresh i.
+Proof. unfold tname, sname. simpl. intros H. inversion H. Qed.
+
+Lemma tname_form fresh n : tname fresh n = "t" ++ string_of_N (fresh + (N.of_nat n + 1)).
+Proof. unfold tname. rewrite N.add_assoc. reflexivity. Qed.
+
+(* ---- association lists ---- *)
+Lemma update_absent n t (m : subst) : assoc n m = None -> update n t m = (m ++ [(n, t)])%list.
+Proof.
+  induction m as [|[k v] r IH]; simpl; intros H; [reflexivity|].
+  destruct (String.eqb_spec n k) as [E|E]; [discriminate H|].
+  destruct (String.eqb_spec k n) as [E'|E']; [congruence|]. rewrite IH by assumption. reflexivity.
+Qed.
+
+Lemma assoc_app {X} n (a b : list (string * X)) :
+  assoc n (a ++ b)%list = match assoc n a with Some x => Some x | None => assoc n b end.
+Proof.
+  induction a as [|[k v] r IH]; simpl; [reflexivity|].
+  destruct (String.eqb n k); [reflexivity|exact IH].
+Qed.
+
+Lemma assoc_not_in {X} n (l : list (string * X)) : ~ In n (map fst l) -> assoc n l = None.
+Proof.
+  induction l as [|[k v] r IH]; simpl; intros H; [reflexivity|].
+  destruct (String.eqb_spec n k) as [E|E]; [exfalso; apply H; left; auto|]. apply IH. tauto.
+Qed.
+
+Lemma map_fst_combine {X Y} (a : list X) (b : list Y) : List.length a = List.length b -> map fst (combine a b) = a.
+Proof.
+  revert b. induction a as [|x r IH]; intros [|y s] H; simpl in *; try discriminate H; [reflexivity|].
+  f_equal. apply IH. lia.
+Qed.
+
+(* ---- free_from ---- *)
+Lemma free_from_absent : forall t n, simple t = true -> ~ In n (vars_of t) -> free_from t n = Ok true.
+Proof.
+  induction t using ty_ind'; intros v Hs Hv; simpl in Hs; try discriminate Hs; try reflexivity.
+  - simpl. destruct (String.eqb_spec n v) as [E|E]; [exfalso; apply Hv; left; exact E|reflexivity].
+  - simpl. auto.
+  - apply andb_true_iff in Hs. destruct Hs as [H1 H2]. simpl in Hv |- *.
+    rewrite IHt1; [simpl; apply IHt2|assumption|]; try assumption; intros Hin; apply Hv; apply in_or_app; tauto.
+  - simpl. induction H as [|[n t] r Ht Hr IH]; [reflexivity|].
+    simpl in *. apply andb_true_iff in Hs. destruct Hs as [H1 H2].
+    rewrite Ht; [simpl; apply IH|assumption|]; try assumption; intros Hin; apply Hv; apply in_or_app; tauto.
+  - simpl. auto.
+Qed.
+
+Lemma as_unbound_rf fa m t :
+  (forall n, In n (vars_of t) -> assoc n m = None) -> wf_ty t = true ->
+  rf (fa < ty_size t) (apply_subst fa m t) (Ok t).
+Proof.
+  intros Hv Hw. rewrite <- (asub_unbound m t Hv Hw).
+  eapply rf_weaken; [|apply (as_rf fa m t 0)]; [lia|].
+  intros n u Hn Hu. rewrite (Hv n Hn) in Hu. discriminate Hu.
+Qed.
+
+Lemma bind_var_fresh fa n t m :
+  assoc n m = None -> (forall v, In v (vars_of t) -> assoc v m = None) -> ~ In n (vars_of t) ->
+  simple t = true -> wf_ty t = true ->
+  rf (fa < ty_size t) (bind_var fa n t m) (Ok (t, (m ++ [(n, t)])%list)).
+Proof.
+  intros Hn Hv Hnot Hs Hw. unfold bind_var.
+  replace (Ok (t, (m ++ [(n, t)])%list)) with
+    (let* y1 := Ok t in let* free := free_from y1 n in
+     if free then match assoc n m with
+                  | Some k => if ty_eqb k y1 then Ok (y1, update n y1 m) else Fail
+                  | None => Ok (y1, update n y1 m) end else Fail).
+  2:{ simpl. rewrite free_from_absent by assumption. simpl. rewrite Hn, update_absent by assumption. reflexivity. }
+  apply rf_bind; [apply as_unbound_rf; assumption|]. intros y1 _. apply rf_refl.
+Qed.
+
+Lemma unify_var_var fa f n p m :
+  unify fa (S f) (TVar n) (TVar p) m =
+  let* ax := apply_subst fa m (TVar n) in
+  let* ay := apply_subst fa m (TVar p) in
+  if ty_eqb ax ay then Ok (TVar n, m) else bind_var fa n (TVar p) m.
+Proof. reflexivity. Qed.
+
+Lemma unify_fresh_var fa f n t m :
+  assoc n m = None -> (forall v, In v (vars_of t) -> assoc v m = None) -> ~ In n (vars_of t) ->
+  simple t = true -> wf_ty t = true ->
+  rf (fa < ty_size t \/ f < 1) (unify fa f (TVar n) t m) (Ok (t, (m ++ [(n, t)])%list)).
+Proof.
+  intros Hn Hv Hnot Hs Hw. destruct f as [|f]; [right; split; [reflexivity|lia]|].
+  destruct (is_var t) eqn:Eiv.
+  - destruct t; try discriminate Eiv. rename n0 into p. rewrite unify_var_var.
+    assert (n <> p) as Hnp by (intros E; apply Hnot; left; auto).
+    replace (Ok (TVar p, (m ++ [(n, TVar p)])%list)) with
+      (let* ax := Ok (TVar n) in let* ay := Ok (TVar p) in
+       if ty_eqb ax ay then Ok (TVar n, m) else (Ok (TVar p, (m ++ [(n, TVar p)])%list) : res (ty * subst))).
+    2:{ simpl. destruct (String.eqb_spec n p); [contradiction|reflexivity]. }
+    apply rf_bind.
+    { eapply rf_weaken; [|apply as_unbound_rf]; [simpl; lia| |reflexivity].
+      intros v [E|[]]. subst v. exact Hn. }
+    intros ax _. apply rf_bind.
+    { eapply rf_weaken; [|apply as_unbound_rf]; [simpl; lia|exact Hv|reflexivity]. }
+    intros ay _. destruct (ty_eqb ax ay); [apply rf_refl|].
+    eapply rf_weaken; [|apply bind_var_fresh; assumption]. tauto.
+  - rewrite unify_var by assumption. eapply rf_weaken; [|apply bind_var_fresh; assumption]. tauto.
+Qed.
+
+Lemma size_list_le (l : list ty) : List.length l <= fold_right (fun x a => ty_size x + a) 0 l.
+Proof. induction l as [|a r IH]; simpl; [lia|]. pose proof (ty_size_pos a). lia. Qed.
+
+Lemma size_map_TVar (l : list string) : fold_right (fun x a => ty_size x + a) 0 (map TVar l) = List.length l.
+Proof. induction l as [|a r IH]; simpl; [reflexivity|]. rewrite IH. reflexivity. Qed.
+
+Lemma unify_list_fresh fa f : forall names ps m,
+  List.length names = List.length ps -> NoDup names ->
+  (forall n, In n names -> assoc n m = None) ->
+  (forall n p, In n names -> In p ps -> ~ In n (vars_of p)) ->
+  (forall p v, In p ps -> In v (vars_of p) -> assoc v m = None) ->
+  (forall p, In p ps -> simple p = true /\ wf_ty p = true) ->
+  rf (fa < ty_size (TTuple ps) \/ f < 1) (unify_list fa f (map TVar names) ps m) (Ok (ps, (m ++ combine names ps)%list)).
+Proof.
+  induction names as [|n names IH]; intros [|p ps] m Hl Hnd Hn Hnp Hv Hp; simpl in Hl; try discriminate Hl.
+  - simpl. rewrite app_nil_r. apply rf_refl.
+  - inversion Hnd as [|? ? Hnotin Hnd']; subst.
+    destruct (Hp p (or_introl Logic.eq_refl)) as [Hsp Hwp].
+    change (unify_list fa f (map TVar (n :: names)) (p :: ps) m) with
+      (let* (u, m1) := unify fa f (TVar n) p m in
+       let* (us, m2) := unify_list fa f (map TVar names) ps m1 in Ok (u :: us, m2)).
+    replace (Ok (p :: ps, (m ++ combine (n :: names) (p :: ps))%list)) with
+      (let* (u, m1) := Ok (p, (m ++ [(n, p)])%list) in
+       let* (us, m2) := Ok (ps, (m1 ++ combine names ps)%list) in (Ok (u :: us, m2) : res (list ty * subst))).
+    2:{ simpl. rewrite <- app_assoc. reflexivity. }
+    apply rf_bind.
+    { eapply rf_weaken; [|apply unify_fresh_var; auto].
+      - simpl. lia.
+      - apply Hn. left; reflexivity.
+      - intros v Hv'. eapply Hv; [left; reflexivity|exact Hv'].
+      - apply Hnp; left; reflexivity. }
+    intros [u m1] E. inversion E; subst u m1.
+    apply rf_bind; [|intros [us m2] _; apply rf_refl].
+    eapply rf_weaken; [|apply IH]; try assumption.
+    + simpl. lia.
+    + lia.
+    + intros n' Hn'. rewrite assoc_app, (Hn n') by (right; exact Hn'). simpl.
+      destruct (String.eqb_spec n' n); [subst; contradiction|reflexivity].
+    + intros n' p' Hn' Hp'. apply Hnp; right; assumption.
+    + intros p' v Hp' Hv'. rewrite assoc_app, (Hv p' v) by (try right; assumption). simpl.
+      destruct (String.eqb_spec v n) as [E'|E']; [|reflexivity].
+      subst v. exfalso. apply (Hnp n p'); [left; reflexivity|right; exact Hp'|exact Hv'].
+    + intros p' Hp'. apply Hp. right; exact Hp'.
+Qed.
+
+Lemma unify_tfun1 fa f n1 a r1 n2 b r2 m :
+  unify fa (S f) (TFun n1 [a] r1) (TFun n2 [b] r2) m =
+  let* xp := apply_subst fa m a in
+  let* yp := apply_subst fa m b in
+  let* (u, m1) := unify fa f xp yp m in
+  let* (r, m2) := unify fa f r1 r2 m1 in Ok (TFun n1 [u] r, m2).
+Proof.
+  cbn. destruct (apply_subst fa m a) as [xp| | |]; simpl; try reflexivity.
+  destruct (apply_subst fa m b) as [yp| | |]; simpl; try reflexivity.
+  destruct (unify fa f xp yp m) as [[u m1]| | |]; simpl; reflexivity.
+Qed.
+
+(* ------------------------------------------------------------------------------------------------ *)
+(* Stage 2f: inferFun refines a fuel-free specification                                              *)
+(* ------------------------------------------------------------------------------------------------ *)
+
+Lemma rf_bind_ok {X Y} P (r1 : res X) x (k1 : X -> res Y) r2 :
+  rf P r1 (Ok x) -> rf P (k1 x) r2 -> rf P (rbind r1 k1) r2.
+Proof. intros [E|[E HP]] H2; subst r1; simpl; [exact H2|right; split; auto]. Qed.
+
+Lemma rf_bind_fail {X Y} P (r1 : res X) (k1 : X -> res Y) : rf P r1 Fail -> rf P (rbind r1 k1) Fail.
+Proof. intros [E|[E HP]]; subst r1; simpl; [left; reflexivity|right; split; auto]. Qed.
+
+Definition msize (m : subst) : nat := fold_right (fun kv a => ty_size (snd kv) + a) 0 m.
+
+Lemma msize_assoc m n u : assoc n m = Some u -> ty_size u <= msize m.
+Proof.
+  intros H. apply assoc_In in H. unfold msize. induction m as [|kv r IH]; [contradiction|].
+  simpl. destruct H as [E|H]; [subst kv; simpl; lia|]. apply IH in H. lia.
+Qed.
+
+Definition infer_spec (fresh : N) (params : list ty) (ret : ty) (args : list ty) : res (list ty * ty) :=
+  if negb (Nat.eqb (List.length args) (List.length params)) then Fail else
+  let* (ks, m2) := mtch_list params args (m_init fresh params ret (List.length args)) in
+  let* tres := asub m2 ret in
+  if slot_free tres then Ok (ks, tres) else Fail.
+
+Definition infer_bound (fresh : N) (params : list ty) (ret : ty) (args : list ty) : nat :=
+  match mtch_list params args (m_init fresh params ret (List.length args)) with
+  | Ok (_, m2) => msize m2
+  | _ => 0
+  end + ty_size (TTuple params) + ty_size ret + 2 * ty_size (TTuple args) + 5.
+
+Lemma not_in_vars_not_named p n : ~ In n (vars_of p) -> is_var_named p n = false.
+Proof.
+  destruct p; simpl; intros H; try reflexivity.
+  destruct (String.eqb_spec n0 n); [exfalso; apply H; left; assumption|reflexivity].
+Qed.
+
+Lemma as_chase fa m n p B :
+  assoc n m = Some p -> ~ In n (vars_of p) ->
+  (forall v u, In v (vars_of p) -> assoc v m = Some u -> slot_free u = true /\ wf_ty u = true /\ ty_size u <= B) ->
+  rf (fa < ty_size p + B + 1) (apply_subst fa m (TVar n)) (asub m p).
+Proof.
+  intros Ha Hn Hb. destruct fa as [|fa]; [right; split; [reflexivity|lia]|].
+  simpl. rewrite Ha, (not_in_vars_not_named _ _ Hn).
+  eapply rf_weaken; [|apply (as_rf fa m p B Hb)]. lia.
+Qed.
+
+Lemma rmapM_names {Y} P (g : ty -> res Y) : forall names (ps : list Y),
+  List.length names = List.length ps ->
+  (forall n p, In (n, p) (combine names ps) -> rf P (g (TVar n)) (Ok p)) ->
+  rf P (rmapM g (map TVar names)) (Ok ps).
+Proof.
+  induction names as [|n names IH]; intros [|p ps] Hl H; simpl in Hl; try discriminate Hl.
+  - apply rf_refl.
+  - simpl. eapply rf_bind_ok; [apply H; left; reflexivity|].
+    eapply rf_bind_ok; [apply (IH ps); [lia|intros n' p' Hin; apply H; right; exact Hin]|]. apply rf_refl.
+Qed.
+
+Lemma wf_map_TVar l : forallb wf_ty (map TVar l) = true.
+Proof. induction l; simpl; auto. Qed.
+
+Lemma unify_list_rf fa f : forall l1 l2 m,
+  forallb simple l1 = true -> forallb ty_ok l2 = true ->
+  rf (fa < ty_size (TTuple l2) \/ f < ty_size (TTuple l1)) (unify_list fa f l1 l2 m) (mtch_list l1 l2 m).
+Proof.
+  induction l1 as [|a r1 IH]; intros [|b r2] m H1 H2; try apply rf_refl.
+  simpl in H1, H2. apply andb_true_iff in H1. apply andb_true_iff in H2.
+  destruct H1 as [Ha Hr1]. destruct H2 as [Hb Hr2]. destruct (ty_ok_parts _ Hb) as [B1 [B2 B3]].
+  change (unify_list fa f (a :: r1) (b :: r2) m) with
+    (let* (u, m1) := unify fa f a b m in let* (us, m2) := unify_list fa f r1 r2 m1 in Ok (u :: us, m2)).
+  simpl mtch_list. apply rf_bind.
+  { eapply rf_weaken; [|apply (unify_refines fa a f b m); assumption]. unfold low. simpl. lia. }
+  intros [u m1] _. apply rf_bind; [|intros [us m2] _; apply rf_refl].
+  eapply rf_weaken; [|apply IH; assumption]. simpl. lia.
+Qed.
+
+Section Infer.
+  Variables (fresh : N) (name : string) (params : list ty) (ret : ty) (args : list ty).
+  Hypothesis Hp : forall p, In p params -> simple p = true /\ wf_ty p = true.
+  Hypothesis Hr1 : simple ret = true.
+  Hypothesis Hr2 : wf_ty ret = true.
+  Hypothesis Hfr : forall v i, In v (flat_map vars_of (ret :: params)) ->
+                               v <> sname fresh i /\ v <> ("t" ++ string_of_N (fresh + i)).
+  Hypothesis Ha : forallb ty_ok args = true.
+
+  Let n := List.length args.
+  Let m1 := m_init fresh params ret n.
+  Let W := fun v => In v (flat_map vars_of params).
+
+  Lemma vars_param_in p v : In p params -> In v (vars_of p) -> In v (flat_map vars_of (ret :: params)).
+  Proof. intros Hp' Hv. simpl. apply in_or_app. right. apply in_flat_map. eauto. Qed.
+
+  Lemma not_key_combine v : (forall i, v <> sname fresh i) -> ~ In v (map fst (combine (snames fresh n) params)).
+  Proof.
+    intros Hv Hin. apply in_map_iff in Hin. destruct Hin as [[k p] [E Hin]]. simpl in E. subst k.
+    apply in_combine_l in Hin. apply snames_In in Hin. destruct Hin as [i E]. exact (Hv i E).
+  Qed.
+
+  Lemma m1_unbound v : In v (flat_map vars_of (ret :: params)) -> assoc v m1 = None.
+  Proof.
+    intros Hv. unfold m1, m_init. rewrite assoc_app.
+    rewrite (assoc_not_in v (combine (snames fresh n) params)).
+    - simpl. destruct (String.eqb_spec v (tname fresh n)) as [E|E]; [|reflexivity].
+      exfalso. rewrite tname_form in E. exact (proj2 (Hfr v _ Hv) E).
+    - apply not_key_combine. intros i. exact (proj1 (Hfr v i Hv)).
+  Qed.
+
+  Lemma m1_t : assoc (tname fresh n) m1 = Some ret.
+  Proof.
+    unfold m1, m_init. rewrite assoc_app, (assoc_not_in (tname fresh n) (combine (snames fresh n) params)).
+    - simpl. rewrite String.eqb_refl. reflexivity.
+    - apply not_key_combine. intros i. apply tname_not_sname.
+  Qed.
+
+  Lemma m1_s nm p : List.length params = n -> In (nm, p) (combine (snames fresh n) params) -> assoc nm m1 = Some p.
+  Proof.
+    intros Hl Hin. unfold m1, m_init. rewrite assoc_app.
+    rewrite (In_assoc nm (combine (snames fresh n) params) p); [reflexivity| |exact Hin].
+    rewrite map_fst_combine by (rewrite snames_length; auto). apply snames_NoDup.
+  Qed.
+
+  Lemma t_not_in_ret : ~ In (tname fresh n) (vars_of ret).
+  Proof.
+    intros Hin. rewrite tname_form in Hin.
+    refine (proj2 (Hfr _ (N.of_nat n + 1)%N _) Logic.eq_refl). simpl. apply in_or_app. left. exact Hin.
+  Qed.
+
+  Lemma wf_params : wf_ty (TTuple params) = true.
+  Proof. simpl. apply forallb_forall. intros p Hin. apply Hp; assumption. Qed.
+
+  Definition pseudo : ty := TFun name [TTuple (map TVar (snames fresh n))] (TVar (tname fresh n)).
+
+  Lemma step1 fa f :
+    rf (fa < n + 2 + ty_size (TTuple params) + ty_size ret \/ f < 3)
+       (unify fa f pseudo (TFun name [TTuple params] ret) [])
+       (if Nat.eqb n (List.length params) then Ok (TFun name [TTuple params] ret, m1) else Fail).
+  Proof.
+    destruct f as [|f]; [right; split; [reflexivity|lia]|].
+    unfold pseudo. rewrite unify_tfun1.
+    eapply rf_bind_ok.
+    { eapply rf_weaken; [|apply as_unbound_rf].
+      - simpl. rewrite size_map_TVar, snames_length. lia.
+      - intros v _. reflexivity.
+      - simpl. apply wf_map_TVar. }
+    eapply rf_bind_ok.
+    { eapply rf_weaken; [|apply as_unbound_rf]; [lia|intros v _; reflexivity|apply wf_params]. }
+    destruct f as [|f]; [right; split; [reflexivity|lia]|].
+    rewrite unify_tuple, map_length, snames_length.
+    destruct (Nat.eqb n (List.length params)) eqn:El; simpl negb; cbv iota; [|apply rf_refl].
+    apply Nat.eqb_eq in El.
+    eapply rf_bind_ok.
+    { eapply rf_bind_ok.
+      { eapply rf_weaken; [|apply unify_list_fresh].
+        - simpl. intros [H|H]; [left|right]; lia.
+        - rewrite snames_length. exact El.
+        - apply snames_NoDup.
+        - intros v _. reflexivity.
+        - intros nm p Hnm Hp' Hv. apply snames_In in Hnm. destruct Hnm as [i E]. subst nm.
+          exact (proj1 (Hfr _ i (vars_param_in _ _ Hp' Hv)) Logic.eq_refl).
+        - intros p v _ _. reflexivity.
+        - exact Hp. }
+      apply rf_refl. }
+    cbv beta iota.
+    eapply rf_bind_ok.
+    { eapply rf_weaken; [|apply unify_fresh_var]; try assumption.
+      - intros [H|H]; [left|right]; lia.
+      - simpl. apply assoc_not_in. apply not_key_combine. intros i. apply tname_not_sname.
+      - intros v Hv. simpl. apply assoc_not_in. apply not_key_combine. intros i.
+        refine (proj1 (Hfr v i _)). simpl. apply in_or_app. left. exact Hv.
+      - apply t_not_in_ret. }
+    apply rf_refl.
+  Qed.
+
+  Lemma step2 fa : List.length params = n ->
+    rf (fa < ty_size (TTuple params) + 2) (apply_subst fa m1 (TTuple (map TVar (snames fresh n)))) (Ok (TTuple params)).
+  Proof.
+    intros Hl. destruct fa as [|fa]; [right; split; [reflexivity|lia]|].
+    simpl apply_subst. unfold rmap. eapply rf_bind_ok; [|apply rf_refl].
+    apply rmapM_names; [rewrite snames_length; auto|].
+    intros nm p Hin.
+    assert (In p params) as Hpin by (eapply in_combine_r; eauto).
+    assert (In nm (snames fresh n)) as Hnm by (eapply in_combine_l; eauto).
+    destruct (Hp p Hpin) as [Hsp Hwp].
+    assert (forall v, In v (vars_of p) -> assoc v m1 = None) as Hun.
+    { intros v Hv. apply m1_unbound. eapply vars_param_in; eauto. }
+    rewrite <- (asub_unbound m1 p Hun Hwp).
+    eapply rf_weaken; [|apply (as_chase fa m1 nm p 0)].
+    - pose proof (size_in_list _ _ Hpin). simpl. lia.
+    - apply m1_s; assumption.
+    - intros Hv. apply snames_In in Hnm. destruct Hnm as [i E]. subst nm.
+      exact (proj1 (Hfr _ i (vars_param_in _ _ Hpin Hv)) Logic.eq_refl).
+    - intros v u Hv Hu. rewrite (Hun v Hv) in Hu. discriminate Hu.
+  Qed.
+
+  Lemma params_pre : forall a, In a params -> simple a = true /\ wf_ty a = true /\ forall v, In v (vars_of a) -> W v.
+  Proof.
+    intros a Hin. destruct (Hp a Hin) as [H1 H2]. repeat split; try assumption.
+    intros v Hv. unfold W. apply in_flat_map. eauto.
+  Qed.
+
+  Lemma m1_gb : forall v, W v -> gb m1 v.
+  Proof.
+    intros v Hv u Hu. rewrite m1_unbound in Hu; [discriminate Hu|].
+    simpl. apply in_or_app. right. exact Hv.
+  Qed.
+
+  (* facts about the substitution after matching the parameters *)
+  Lemma m2_facts ks m2 : mtch_list params args m1 = Ok (ks, m2) ->
+    assoc (tname fresh n) m2 = Some ret /\
+    (forall v u, In v (vars_of ret) -> assoc v m2 = Some u -> W v /\ ty_ok u = true).
+  Proof.
+    intros HM.
+    destruct (mtch_list_sound W params args m1 ks m2 params_pre Ha m1_gb HM) as [[P1 [G1 X1]] _].
+    split.
+    - rewrite P1; [apply m1_t|]. intros Hin.
+      apply in_flat_map in Hin. destruct Hin as [p [Hp' Hv]].
+      pose proof (vars_param_in _ _ Hp' Hv) as Hin. rewrite tname_form in Hin.
+      exact (proj2 (Hfr _ _ Hin) Logic.eq_refl).
+    - intros v u Hv Hu.
+      destruct (in_dec string_dec v (flat_map vars_of params)) as [Hin|Hnin].
+      + split; [exact Hin|]. exact (G1 v Hin u Hu).
+      + rewrite (P1 v Hnin), m1_unbound in Hu; [discriminate Hu|]. simpl. apply in_or_app. left. exact Hv.
+  Qed.
+
+  Lemma infer_rf fa f :
+    rf (fa < infer_bound fresh params ret args \/ f < infer_bound fresh params ret args)
+       (infer_fun fa f fresh name params ret args) (infer_spec fresh params ret args).
+  Proof.
+    assert (map (fun i => fresh_var "s" (fresh + i)) (seqN 1 n) = map TVar (snames fresh n)) as Esx.
+    { unfold snames. rewrite map_map. reflexivity. }
+    unfold infer_fun, infer_spec. fold n. rewrite Esx.
+    change (fresh_var "t" (fresh + N.of_nat n + 1)) with (TVar (tname fresh n)).
+    fold pseudo. fold m1.
+    pose proof (size_list_le args) as Hsz. fold n in Hsz.
+    assert (n + 2 + ty_size (TTuple params) + ty_size ret + 3 <= infer_bound fresh params ret args) as Hb0.
+    { unfold infer_bound. simpl. lia. }
+    destruct (Nat.eqb n (List.length params)) eqn:El.
+    2:{ simpl negb. cbv iota. apply rf_bind_fail.
+        eapply rf_weaken; [|pose proof (step1 fa f) as H; rewrite El in H; exact H]. lia. }
+    simpl negb. cbv iota. pose proof El as El'. apply Nat.eqb_eq in El'.
+    eapply rf_bind_ok.
+    { eapply rf_weaken; [|pose proof (step1 fa f) as H; rewrite El in H; exact H]. lia. }
+    cbv beta iota.
+    eapply rf_bind_ok.
+    { eapply rf_weaken; [|apply step2; auto]. lia. }
+    destruct f as [|f]; [right; split; [reflexivity|lia]|].
+    rewrite unify_tuple. rewrite <- El', Nat.eqb_refl. simpl negb. cbv iota.
+    assert (rf (fa < infer_bound fresh params ret args \/ S f < infer_bound fresh params ret args)
+               (unify_list fa f params args m1) (mtch_list params args m1)) as H3.
+    { eapply rf_weaken; [|apply unify_list_rf; [|exact Ha]].
+      - unfold infer_bound. simpl. lia.
+      - apply forallb_forall. intros p Hin. apply Hp; assumption. }
+    unfold infer_bound in *. fold n in H3, Hb0 |- *. fold m1 in H3, Hb0 |- *.
+    destruct (mtch_list params args m1) as [[ks m2]| | |] eqn:EM.
+    2,3,4: (destruct H3 as [E|[E HP]]; rewrite E; simpl; [left; reflexivity|right; split; [reflexivity|exact HP]]).
+    eapply rf_bind_ok.
+    { eapply rf_bind_ok; [exact H3|]. apply rf_refl. }
+    cbv beta iota.
+    destruct (m2_facts ks m2 EM) as [Ht Hv].
+    cbn [rbind].
+    apply rf_bind; [|intros tres _; apply rf_refl].
+    eapply rf_weaken; [|apply (as_chase fa m2 (tname fresh n) ret (msize m2) Ht t_not_in_ret)].
+    - simpl. lia.
+    - intros v u Hin Hu. destruct (Hv v u Hin Hu) as [_ Hok].
+      destruct (ty_ok_parts _ Hok) as [A [B _]]. repeat split; try assumption. eapply msize_assoc; eauto.
+  Qed.
+End Infer.
